@@ -1118,15 +1118,17 @@ type Printer struct {
 	cur     scope
 	Out     *strings.Builder
 	ufs     map[string]bool
+	vars    map[string]bool
 }
 
 type scope struct {
-	ids []uint32
-	ufs []string
+	ids  []uint32
+	ufs  []string
+	vars []string
 }
 
 func NewPrinter() *Printer {
-	return &Printer{defined: map[uint32]string{}, Out: &strings.Builder{}, ufs: map[string]bool{}}
+	return &Printer{defined: map[uint32]string{}, Out: &strings.Builder{}, ufs: map[string]bool{}, vars: map[string]bool{}}
 }
 
 func (p *Printer) Push() {
@@ -1141,6 +1143,9 @@ func (p *Printer) Pop() {
 	for _, u := range p.cur.ufs {
 		delete(p.ufs, u)
 	}
+	for _, n := range p.cur.vars {
+		delete(p.vars, n)
+	}
 	p.cur = p.scopes[len(p.scopes)-1]
 	p.scopes = p.scopes[:len(p.scopes)-1]
 }
@@ -1150,6 +1155,7 @@ func (p *Printer) Reset() {
 	p.scopes = nil
 	p.cur = scope{}
 	p.ufs = map[string]bool{}
+	p.vars = map[string]bool{}
 }
 
 func symName(s string) string {
@@ -1173,8 +1179,14 @@ func (p *Printer) Ref(t *T) string {
 	var name string
 	switch t.Op {
 	case OVar, OArrVar:
+		// variables are identified by name (term ids differ between per-path builders)
 		name = symName(t.Name)
-		fmt.Fprintf(p.Out, "(declare-const %s %s)\n", name, sortOf(t))
+		if !p.vars[t.Name] {
+			p.vars[t.Name] = true
+			p.cur.vars = append(p.cur.vars, t.Name)
+			fmt.Fprintf(p.Out, "(declare-const %s %s)\n", name, sortOf(t))
+		}
+		return name
 	default:
 		var body string
 		switch t.Op {
